@@ -189,7 +189,7 @@ def form_group(s, form, op, L):
             return ('confirmed' if bad else 'mismatch'), ' | '.join(txts)
         return prog, judge
     cls = lambda case: classify(case['form'], case['op'], case['parts'])
-    hy = known_exclusions(s, h, form, op, parts, v)
+    hy = known_exclusions(s, h, form, op, parts, v, comps)
     s.cover(h, 'a prerelease probe admitted through the comparator', [some, got, h.is_pre(v)])
     s.prove(h, '%s%s: a produced interval is satisfied exactly when node-semver\'s desugaring admits the version' % (form, (' ' + OPTXT[op]) if op else ''),
             hy + [some], got == want, decode=dec, replay=replay, cls=cls)
@@ -239,7 +239,7 @@ def pair_group(s, f1, o1, f2, o2, L):
     res = h.call(fold, Clo('fold', []), vec)
     got = h.call(h.fn('Range', None, 'satisfies'), St(h.R, [res]), v).t
     want = npm.admits(h, c1 + c2, v)
-    hy = known_exclusions(s, h, f1, o1, [p1], v) + known_exclusions(s, h, f2, o2, [p2], v)
+    hy = known_exclusions(s, h, f1, o1, [p1], v, c1 + c2) + known_exclusions(s, h, f2, o2, [p2], v, [])
 
     def dec(m):
         return {'forms': [[f1, o1], [f2, o2]], 'parts': [dec_partial(h, m, p1), dec_partial(h, m, p2)], 'v': h.dec_version(m, v)}
@@ -277,13 +277,21 @@ def prerelease_of(v, M, m, p):
     return AND(v.fs[4].len != 0, v.fs[0].t == M, v.fs[1].t == m, v.fs[2].t == p)
 
 
-def known_exclusions(s, h, form, op, parts, v):
-    """hypotheses that cut out exactly the listed open findings (known_findings.json) while they still reproduce"""
+def known_exclusions(s, h, form, op, parts, v, results=()):
+    """hypotheses that cut out exactly the listed open findings (known_findings.json) while they still reproduce;
+    `results` are node-semver's primitive comparators of the form(s)"""
     out = []
     if 'gte-zero-not-neutral' in s.known:
-        # node-semver rewrites the comparator `>=0.0.0` to `` (any); the crate keeps 0.0.0 as an inclusive lower bound, so
-        # prereleases of 0.0.0 that another comparator of the same alternative opts in are rejected
-        out.append(NOT(prerelease_of(v, 0, 0, 0)))
+        # node-semver rewrites the comparator `>=0.0.0` to `` (any); the crate keeps 0.0.0 as an inclusive lower bound (also for `*`), so
+        # prereleases of 0.0.0 that another comparator of the same alternative opts in are rejected.  Narrow class: the probe is a
+        # prerelease of 0.0.0 AND node-semver's desugaring of the comparator contains `*` or `>=0.0.0`
+        hit = []
+        for g, o, c in results:
+            if o == 'ANY':
+                hit.append(g)
+            elif o == '>=':
+                hit.append(AND(g, c.fs[0].t == 0, c.fs[1].t == 0, c.fs[2].t == 0, c.fs[4].len == 0))
+        out.append(NOT(AND(prerelease_of(v, 0, 0, 0), OR(*hit))))
     if 'lt-major-only' in s.known and form == 'primitive' and op == 'LessThan':
         # `<M` is held as `<M.0.0` (node-semver: `<M.0.0-0`): differs only on prereleases of M.0.0
         p = parts[0]
@@ -388,7 +396,9 @@ def corpus_group(s, n=500):
         R = native.get('r%d' % i) or {}
         for j, v in enumerate(vs):
             # stay outside the two open known findings (they are reported by their own witnesses)
-            if v['pre'] and (v['major'], v['minor'], v['patch']) == (0, 0, 0):
+            if v['pre'] and (v['major'], v['minor'], v['patch']) == (0, 0, 0) and any(
+                    c[0] != 'hyphen' and c[2][0]['M'] in (None, 0) and not (c[0] == 'primitive' and c[1] in ('GreaterThan', 'LessThan') and c[2][0]['M'] is None) or
+                    c[0] == 'hyphen' and c[2][0]['M'] in (None, 0) for a in alts for c in a):
                 continue
             if v['pre'] and v['minor'] == 0 and v['patch'] == 0 and any(c[0] == 'primitive' and c[1] == 'LessThan' and c[2][0]['M'] == v['major'] and c[2][0]['m'] is None for a in alts for c in a):
                 continue
